@@ -288,6 +288,80 @@ def r20_4(rep, M, E, rid):
                       M.where(fq))
 
 
+# ----------------------------------------------------------------------------- R20.7 wrappedness consistency / COM
+def scaled_position_calls(M, fq, seen=None):
+    """[(call, wrapped?)] of get_scaled_positions reachable from fq (through repo callees)"""
+    seen = seen if seen is not None else set()
+    if fq in seen:
+        return []
+    seen.add(fq)
+    out = []
+    for n in M.own_nodes(fq):
+        if isinstance(n, ast.Call):
+            if isinstance(n.func, ast.Attribute) and n.func.attr == "get_scaled_positions":
+                kw = {k.arg: k.value for k in n.keywords}
+                w = kw.get("wrap", n.args[0] if n.args else None)
+                wrapped = not (isinstance(w, ast.Constant) and w.value is False)
+                out.append((fq, n, wrapped))
+            for c in M.callees_of_call(fq, n):
+                out += scaled_position_calls(M, c, seen)
+    return out
+
+
+def r20_7(rep, M, rid):
+    fq = GEO + ".get_minimized_cell"
+    fn = M.func(fq)
+    fl = Flow(fn)
+    # the extent that decides the new cell length and the new positions must come from the same, unwrapped coordinates
+    calls = scaled_position_calls(M, fq)
+    bad = [(f, c) for f, c, w in calls if w]
+    if not calls:
+        raise AnalysisError("get_minimized_cell: get_scaled_positions not found")
+    if bad:
+        f, c = bad[0]
+        rep.violation(rid, f"get_minimized_cell: `{norm(c)}` in {f.split('.')[-1]}", "the atomic extent / new coordinates are computed from *wrapped* "
+                      "scaled positions while the function has to work for atoms outside the cell (it uses wrap=False elsewhere): for a periodic "
+                      "axis with atoms outside [0,1) the new cell length is not the atomic extent and atoms end up outside the cell", M.where(f, c))
+    else:
+        rep.ok(rid, f"get_minimized_cell: all {len(calls)} scaled-position reads (incl. callees) are unwrapped")
+    # centre of mass: circular mean exactly on the periodic components
+    fq = GEO + ".get_center_of_mass"
+    fn = M.func(fq)
+    fl = Flow(fn)
+    loops = [n for n in fn.body if isinstance(n, ast.For)]
+    if len(loops) != 1 or not isinstance(loops[0].target, ast.Name):
+        raise AnalysisError("get_center_of_mass: loop over the three components not found")
+    lv = loops[0].target.id
+    branches = [t for t in ast.walk(loops[0]) if isinstance(t, ast.If) and any(
+        isinstance(c, ast.Call) and (M.ext_name(fq, c.func) or "").endswith("arctan2") for s2 in t.body for c in ast.walk(s2))]
+    if not branches:
+        raise AnalysisError("get_center_of_mass: circular-mean branch not found")
+    t = branches[0]
+    at = fl.node_of(t)
+    sl = fl.slice(t.test, at)
+    per_comp = any(isinstance(x, ast.Subscript) and norm(x.slice) == lv and any(
+        isinstance(c, ast.Call) and isinstance(c.func, ast.Attribute) and c.func.attr == "get_pbc" for e2 in fl.slice(x.value, at)["exprs"] for c in ast.walk(e2))
+        for e in sl["exprs"] for x in ast.walk(e))
+    inside_loop = all(d != fl.cfg.entry and fl.cfg.reaches(fl.cfg.node_of[id(loops[0])], d) for v in [x.id for x in ast.walk(t.test) if isinstance(x, ast.Name)]
+                      for d in fl.rd[at].get(v, ()))
+    if per_comp and inside_loop:
+        rep.ok(rid, f"get_center_of_mass: circular mean exactly where pbc[{lv}] of the same component is set")
+    else:
+        rep.violation(rid, "get_center_of_mass: periodic branch", f"the choice between circular mean and plain mean does not test the pbc flag of the "
+                      f"component being computed (`{norm(t.test)}`): with mixed periodicity non-periodic components are folded into the cell",
+                      M.where(fq, t))
+    pos = [s2 for s2 in ast.walk(loops[0]) if isinstance(s2, ast.Assign) and isinstance(s2.value, ast.Subscript) and "[:, " in norm(s2.value)]
+    stores = [s2 for s2 in ast.walk(loops[0]) if isinstance(s2, ast.Assign) and isinstance(s2.targets[0], ast.Subscript)]
+    ok_idx = pos and all(norm(s2.value).endswith(f"[:, {lv}]") for s2 in pos) and stores and all(norm(s2.targets[0].slice) == lv for s2 in stores)
+    orelse_mass = any("masses" in norm(s2) and "total_mass" in norm(s2) for s2 in t.orelse)
+    body_mass = any("masses" in norm(s2) for s2 in t.body)
+    if ok_idx and orelse_mass and body_mass:
+        rep.ok(rid, "get_center_of_mass: component i reads column i and writes entry i; both branches are mass weighted")
+    else:
+        rep.violation(rid, "get_center_of_mass: component bookkeeping", f"column/entry index consistent: {bool(ok_idx)}; non-periodic branch mass weighted: "
+                      f"{orelse_mass}; periodic branch mass weighted: {body_mass}", M.where(fq))
+
+
 # ----------------------------------------------------------------------------- R20.6 complete_cell / inertia
 def r20_6(rep, M, rid):
     fq = GEO + ".complete_cell"
@@ -341,6 +415,7 @@ def run(rep, ctx):
     rep.rule("R20.4", "get_minimized_cell returns new atoms, carries pbc/species, changes only the chosen basis row, honours min_size")
     rep.rule("R20.5", "to_cartesian = X.C and to_scaled = X.C^-1 (mutual inverses, row-vector convention)")
     rep.rule("R20.6", "complete_cell is the scaled unit normal; the inertia tensor is decomposed about the periodic centre of mass")
+    rep.rule("R20.7", "get_minimized_cell works on unwrapped coordinates throughout; the centre of mass uses the circular mean exactly on periodic components")
     with rep.guard("R20.1"):
         n = sigs.run(rep, M, "R20.1")
         rep.floor("R20.1", 150)
@@ -354,6 +429,9 @@ def run(rep, ctx):
         r20_5(rep, M, "R20.5")
     with rep.guard("R20.6"):
         r20_6(rep, M, "R20.6")
+    with rep.guard("R20.7"):
+        r20_7(rep, M, "R20.7")
+    rep.floor("R20.7", 3)
     rep.floor("R20.2", 4)
     rep.floor("R20.3", 5)
     rep.floor("R20.4", 6)
